@@ -910,7 +910,7 @@ def ape_cli(run, case, rng, work):
                   case, "timestamps array is not the estimate's stamps of the surviving pairs",
                   key="cli:timestamps")
     return {"z": z, "stored": stored, "P": P, "o": o, "relation": relation, "unit": unit,
-            "factor": factor, "fp": fp, "argv": argv, "tool": "ape"}
+            "factor": factor, "fp": fp, "argv": argv, "tool": "ape", "want": want, "want_tol": tol}
 
 
 def unit_factor(base_unit, unit):
